@@ -32,10 +32,31 @@ def int_range(ty):
     return None
 
 
-def I(lo, hi):
+SETMAX = 12
+
+
+def I(lo, hi, vals=None):
     if lo > hi:
         return BOT
+    if vals is not None:
+        vals = frozenset(v for v in vals if lo <= v <= hi)
+        if not vals:
+            return BOT
+        if len(vals) > SETMAX:
+            return ("i", min(vals), max(vals))
+        return ("i", min(vals), max(vals), vals)
+    if lo == hi:
+        return ("i", lo, hi, frozenset([lo]))
     return ("i", lo, hi)
+
+
+def ivals(a):
+    """explicit value set of an int value, or None"""
+    if a[0] == "i" and len(a) > 3:
+        return a[3]
+    if a[0] == "i" and a[2] - a[1] < SETMAX:
+        return frozenset(range(a[1], a[2] + 1))
+    return None
 
 
 def F(lo, hi, nan=False):
@@ -87,6 +108,8 @@ def join(a, b):
         return TOP
     k = a[0]
     if k == "i":
+        if len(a) > 3 and len(b) > 3:
+            return I(min(a[1], b[1]), max(a[2], b[2]), a[3] | b[3])
         return ("i", min(a[1], b[1]), max(a[2], b[2]))
     if k == "f":
         return ("f", min(a[1], b[1]), max(a[2], b[2]), a[3] or b[3])
@@ -127,6 +150,8 @@ def widen(old, new, ty_range=None):
             lo = tl if new[1] >= tl else -BIG
         if new[2] > hi:
             hi = th if new[2] <= th else BIG
+        if lo == old[1] and hi == old[2] and len(old) > 3 and len(new) > 3:
+            return I(lo, hi, old[3] | new[3])
         return ("i", lo, hi)
     if k == "f":
         lo = old[1] if new[1] >= old[1] else -math.inf
@@ -156,7 +181,10 @@ def meet(a, b):
         return a
     k = a[0]
     if k == "i":
-        return I(max(a[1], b[1]), min(a[2], b[2]))
+        lo, hi = max(a[1], b[1]), min(a[2], b[2])
+        va, vb = (a[3] if len(a) > 3 else None), (b[3] if len(b) > 3 else None)
+        vs = (va & vb) if (va is not None and vb is not None) else (va if va is not None else vb)
+        return I(lo, hi, vs)
     if k == "f":
         lo, hi = max(a[1], b[1]), min(a[2], b[2])
         return ("f", lo, hi, a[3] and b[3])
@@ -189,6 +217,8 @@ def show(a, depth=0):
                     return "%s2^%d-1" % (s, x.bit_length())
                 return "%s~2^%d" % (s, x.bit_length())
             return str(x)
+        if len(a) > 3 and 1 < len(a[3]) <= 6 and len(a[3]) != a[2] - a[1] + 1:
+            return "{%s}" % ",".join(str(v) for v in sorted(a[3]))
         return "[%s, %s]" % (f(a[1]), f(a[2]))
     if k == "f":
         return "f[%g, %g%s]" % (a[1], a[2], ", NaN" if a[3] else "")
